@@ -157,12 +157,25 @@ Qed.
 (* ------------------------------------------------------------------ *)
 (* character data                                                      *)
 (* ------------------------------------------------------------------ *)
+(* what follows the < is neither ! nor ? : a tag, not a CDATA section, comment or PI *)
+Definition opens (x : str) : Prop :=
+  match x with [] => True | c :: _ => c <> BANG /\ c <> QMARK end.
+
+Lemma take_run_stop x f : opens x -> take_run (S f) (LT :: x) = Some ([], LT :: x).
+Proof.
+  intro Hx. cbn [take_run]. change (LT =? LT) with true. cbv iota.
+  destruct x as [|c x]; [reflexivity|]. destruct Hx as [Hb Hq].
+  unfold cdata_open_tail, comment_open_tail. cbn [strip_prefix].
+  replace (33 =? c) with false by (symmetry; apply N.eqb_neq; unfold BANG in Hb; congruence).
+  replace (c =? QMARK) with false by (symmetry; now apply N.eqb_neq). reflexivity.
+Qed.
+
 Lemma take_run_text : forall a x f,
-  mem LT a = false -> (length a < f)%nat -> strip_prefix cdata_open_tail x = None ->
+  mem LT a = false -> (length a < f)%nat -> opens x ->
   take_run f (a ++ LT :: x) = Some (a, LT :: x).
 Proof.
   induction a as [|c a IH]; intros x f Hm Hl Hx; (destruct f as [|f]; [cbn in Hl; lia|]).
-  - cbn [app take_run]. change (LT =? LT) with true. cbv iota. now rewrite Hx.
+  - cbn [app]. now apply take_run_stop.
   - rewrite mem_cons in Hm. apply orb_false_iff in Hm as [H1 H2].
     cbn [app take_run]. rewrite N.eqb_sym, H1. rewrite (IH x f H2); [reflexivity| |exact Hx].
     cbn [length] in Hl. lia.
@@ -200,8 +213,6 @@ Proof.
   rewrite G; [reflexivity|]. cbn [length] in Hf. rewrite app_length in Hf. cbn [length] in Hf. lia.
 Qed.
 
-Definition opens (x : str) : Prop := strip_prefix cdata_open_tail x = None.
-
 Lemma good_text s x evs :
   s <> [] -> chars_legal s = true -> has_entity_ref s = false -> opens x ->
   Good (LT :: x) evs -> Good (rt1 s ++ LT :: x) (EvChars s :: evs).
@@ -215,18 +226,17 @@ Proof.
   rewrite take_run_text; [| |rewrite app_length; cbn [length]; lia|exact Hx].
   2: { rewrite mem_cons, Hm1, Hm2. reflexivity. }
   rewrite <- E. rewrite <- request_text_rt1, (text_roundtrip_partial_l s Hl He).
-  rewrite G; [reflexivity|].
+  rewrite G; [destruct s; [congruence|reflexivity]|].
   rewrite app_length in Hf. cbn [length] in Hf |- *. lia.
 Qed.
 
 Lemma opens_slash y : opens (SLASH :: y).
-Proof. reflexivity. Qed.
+Proof. split; discriminate. Qed.
 
 Lemma opens_name n y : name_ok n = true -> opens (n ++ y).
 Proof.
-  intro Hn. destruct (name_ok_facts _ Hn) as (c & n' & -> & Hb & _).
-  unfold opens, cdata_open_tail. cbn [app strip_prefix].
-  replace (33 =? c) with false; [reflexivity|]. symmetry. apply N.eqb_neq. unfold BANG in Hb. congruence.
+  intro Hn. destruct (name_ok_facts _ Hn) as (c & n' & -> & Hb & Hq & _).
+  cbn [app opens]. now split.
 Qed.
 
 Lemma stops_attrs attrs e x : stops (render_attrs attrs ++ tag_end e x) = true.
